@@ -114,6 +114,9 @@ theorem no_touch_after_return (s : Cfg) (a : Act) (hI : SInv s) (he : enabled s 
   | loopFail =>
     simp only [enabled, beq_iff_eq] at he
     exact key (Or.inl (by rw [he]; simp))
+  | acceptFail =>
+    simp only [enabled, beq_iff_eq] at he
+    exact key (Or.inl (by rw [he]; simp))
   | loopEnd =>
     simp only [enabled, Bool.and_eq_true, beq_iff_eq, Bool.not_eq_true'] at he
     refine ⟨?_, fun h => absurd rfl h⟩
@@ -432,6 +435,12 @@ theorem step_inv (s : Cfg) (a : Act) (hI : SInv s) (he : enabled s a = true) : S
   | loopEnd =>
     simp only [enabled, Bool.and_eq_true, beq_iff_eq, Bool.not_eq_true'] at he
     exact ⟨runIff, by rw [inFlight_cnt]; exact numEq, st2, cntLt, seq, inlLt, ctl1, ctl2, sb, notBad, rs, fun _ => he.1, fun _ => rfl, jt⟩
+  | acceptFail =>
+    by_cases hsk : s.skipsFailed = true
+    · simp only [hsk, if_true]
+      exact ⟨runIff, by rw [inFlight_cnt]; exact numEq, st2, cntLt, seq, inlLt, ctl1, ctl2, sb, notBad, rs, td, jn, jt⟩
+    · simp only [hsk]
+      exact ⟨runIff, by rw [inFlight_cnt]; exact numEq, st2, cntLt, seq, inlLt, ctl1, ctl2, sb, notBad, rs, td, jn, jt⟩
 
 theorem run_inv (r : List Act) (s : Cfg) (hI : SInv s) : SInv (run s r) := by
   induction r generalizing s with
@@ -456,6 +465,7 @@ theorem after_return_enabled (s : Cfg) (a : Act) (hI : SInv s)
   | connect c => exact Or.inl ⟨c, rfl⟩
   | destroy => exact Or.inr (Or.inl rfl)
   | loopFail => simp [enabled, hex] at he
+  | acceptFail => simp [enabled, hex] at he
   | loopEnd =>
     rcases hc with hc | hc
     · exact Or.inr (Or.inr ⟨rfl, hc⟩)
@@ -503,4 +513,28 @@ theorem after_return_stable (r : List Act) (s : Cfg) (hI : SInv s)
         have := ih (step s Act.loopEnd) hI' (by rw [hs]; exact hc)
         simpa [step, touchesServer, hret] using this
     · simp only [he]; exact ih s hI hc
+
+/-! ### failed accepts -/
+
+theorem step_skipsFailed (s : Cfg) (a : Act) : (step s a).skipsFailed = s.skipsFailed := by
+  unfold step
+  cases a <;> simp only [] <;> (repeat' split) <;> simp
+
+theorem step_phantom (s : Cfg) (a : Act) (h : s.skipsFailed = true) : (step s a).phantom = s.phantom := by
+  unfold step
+  cases a <;> simp only [] <;> (repeat' split) <;> simp_all
+
+theorem run_phantom (r : List Act) (s : Cfg) (h : s.skipsFailed = true) :
+    (run s r).phantom = s.phantom ∧ (run s r).skipsFailed = true := by
+  induction r generalizing s with
+  | nil => exact ⟨rfl, h⟩
+  | cons a r ih =>
+    unfold run
+    by_cases he : enabled s a = true
+    · simp only [he, if_true]
+      have := ih (step s a) (by rw [step_skipsFailed]; exact h)
+      rw [step_phantom s a h] at this
+      exact this
+    · simp only [he]; exact ih s h
+
 end AslProofs.SockServer
